@@ -4,7 +4,7 @@ import math, numbers
 from fractions import Fraction as Fr
 import numpy as np
 import polymath
-from polymath import Qube, Scalar, Boolean, Vector, Vector3, Pair, Matrix, Matrix3, Quaternion, Units
+from polymath import Qube, Scalar, Boolean, Vector, Vector3, Pair, Matrix, Matrix3, Quaternion, Units, Polynomial
 import common as C
 import c12_ref as R
 
@@ -251,6 +251,32 @@ OBJ_OPS = {
     'z_rotation': dict(model='tan', arity=1, classes=SC, f=lambda a, b, c: Matrix3.z_rotation(a)),
 }
 
+def poly(order, units, shape=()):
+    """Polynomial of the given order whose value is x + 2 (leading zeros pad it to the order): equal as polynomials
+    for every order"""
+    c = np.zeros(tuple(shape) + (order + 1,))
+    c[..., -2:] = [1., 2.]
+    return Polynomial(c, units=units)
+
+def _piadd(a, b):
+    a += b; return a
+def _pisub(a, b):
+    a -= b; return a
+
+PL = ['Polynomial']
+OBJ_OPS.update({
+    'poly_add': dict(model='add', arity=2, classes=PL, f=lambda a, b, c: a + b, other='same', poly=True),
+    'poly_sub': dict(model='sub', arity=2, classes=PL, f=lambda a, b, c: a - b, other='same', poly=True),
+    'poly_iadd': dict(model='add', arity=2, classes=PL, f=lambda a, b, c: _piadd(a, b), other='same', poly=True, inplace=True),
+    'poly_isub': dict(model='sub', arity=2, classes=PL, f=lambda a, b, c: _pisub(a, b), other='same', poly=True, inplace=True),
+    'poly_eq': dict(model='eq', arity=2, classes=PL, f=lambda a, b, c: a == b, other='same', poly=True),
+    'poly_ne': dict(model='ne', arity=2, classes=PL, f=lambda a, b, c: a != b, other='same', poly=True),
+    'poly_mul': dict(model='mul', arity=2, classes=PL, f=lambda a, b, c: a * b, other='same', poly=True),
+    'poly_at_least_order': dict(model='norm', arity=1, classes=PL, f=lambda a, b, c: a.at_least_order(c['nb']), poly=True),
+    'poly_set_order': dict(model='norm', arity=1, classes=PL, f=lambda a, b, c: a.set_order(c['nb']), poly=True),
+    'poly_deriv': dict(model='norm', arity=1, classes=PL, f=lambda a, b, c: a.deriv(), poly=True),
+})
+
 MATCH_OPS = {'add', 'sub', 'stack', 'from_scalars'}
 ORDER_OPS = {'lt', 'le', 'gt', 'ge'}
 ANGLE_OPS = {'sin', 'cos', 'tan', 'exp'}
@@ -261,6 +287,9 @@ def rule_operands(case, units=True):
     spec = OBJ_OPS[case['oname']]
     ua = build(case['a']) if units else None
     ub = build(case['b']) if units else None
+    if spec.get('poly'):
+        return (poly(case['na'], ua, case['shape']),
+                poly(case['nb'], ub, case['shape']) if spec['arity'] == 2 else None, ua, ub)
     first = Scalar if spec.get('first') == 'scalar' else None
     a = sc(case['shape'], ua, 0.5) if first else make(case['cls'], case['shape'], ua)
     b = None
@@ -505,7 +534,7 @@ def _run_rule(case, info):
 
 
 def _rule_obs(case, r, info):
-    oname = case['oname']
+    oname = OBJ_OPS[case['oname']]['model'] if OBJ_OPS[case['oname']].get('poly') else case['oname']
     if oname in ('eq', 'ne'):
         # operands hold identical values: a value comparison says True for == and False for !=
         val = bool(r.all()) if isinstance(r, Qube) else bool(r)
@@ -808,6 +837,10 @@ def _values_of(obj):
     return [np.array(obj._values_, copy=True)] + [np.array(d._values_, copy=True) for _, d in sorted(obj._derivs_.items())]
 
 
+INPLACE_NO_UNITS = {'imul': '__imul__', 'idiv': '__itruediv__', 'ifloordiv': '__ifloordiv__', 'imod': '__imod__',
+                    'iadd': '__iadd__', 'isub': '__isub__'}
+
+
 def _run_set(case, info):
     cls, how = case['cls'], case['how']
     new = build(case['new'])
@@ -820,6 +853,17 @@ def _run_set(case, info):
         info['units'].append(('units', obj._units_))
         info['obj'] = obj
         return ['units', uobs(obj._units_)]
+    if how in INPLACE_NO_UNITS:
+        obj = make(cls, case['shape'], None)
+        try:
+            getattr(make(cls, case['shape'], None), INPLACE_NO_UNITS[how])(Scalar(2.0))
+            info['supported'] = True
+        except Exception:
+            info['supported'] = False
+        info['obj'] = obj
+        getattr(obj, INPLACE_NO_UNITS[how])(Scalar(2.0, units=new))
+        info['units'].append(('units', obj._units_))
+        return [type(obj).__name__, uobs(obj._units_)]
     if how == 'mul_scalar':
         obj = make(cls, case['shape'], None)
         r = obj * Scalar(2.0, units=new)
@@ -1418,6 +1462,15 @@ def judge_set(case, obs, info, fail):
     exc = info.get('exc')
     cls, how = case['cls'], case['how']
     rn, rc = R.ref_of(case['new']), R.ref_of(case.get('cur'))
+    if cls in NO_UNITS and how in INPLACE_NO_UNITS:
+        obj = info.get('obj')
+        if obj is not None and obj._units_ is not None:
+            return fail('units-on-forbidden-class', '%s %s= Scalar with units %s left units %s (%s) on a class that disallows units'
+                        % (cls, how, case['new'], obj._units_.exponents, obj._units_.triple))
+        if rn is not None and info.get('supported') and not isinstance(exc, TypeError):
+            return fail('no-rejection', '%s %s by a Scalar with units %s must raise TypeError, got %s'
+                        % (cls, how, case['new'], C.sx(obs) if exc is None else type(exc).__name__))
+        return None
     if cls in NO_UNITS:
         if how == 'mul_scalar':
             r = info.get('r')
